@@ -37,6 +37,46 @@ type updSite struct {
 	// the `return true` of a mutator helper (then key names the Update site of the caller)
 	commit ssa.Instruction
 	key    string
+	// executor form: the Update lives in a helper (fn) that one of the two writers (outer) calls once
+	// (via), handing it the fetched object; ctx is then the helper's context with its parameters bound
+	outer    *ssa.Function
+	outerCtx *Ctx
+	via      *ssa.Call
+}
+
+// role: the writer this update site belongs to.
+func (us *updSite) role() *ssa.Function {
+	if us.outer != nil {
+		return us.outer
+	}
+	return us.fn
+}
+
+// executorOf: fn is a helper holding the Update that exactly one of the two taint writers calls,
+// exactly once, and nobody else; returns that writer and the call.
+func (ck *Check) executorOf(fn *ssa.Function) (*ssa.Function, *ssa.Call) {
+	var writer *ssa.Function
+	var via *ssa.Call
+	for _, c := range ck.P.callers[fn] {
+		if c != ck.A.AddTaint && c != ck.A.DelTaint {
+			return nil, nil
+		}
+		sites := callsTo(c, fn)
+		if len(sites) != 1 || writer != nil {
+			return nil, nil
+		}
+		call, ok := sites[0].(*ssa.Call)
+		if !ok {
+			return nil, nil
+		}
+		writer, via = c, call
+	}
+	for _, g := range ck.P.addressTaken() {
+		if g == fn {
+			return nil, nil
+		}
+	}
+	return writer, via
 }
 
 func (ck *Check) updateSites(rule string) []*updSite {
@@ -49,14 +89,31 @@ func (ck *Check) updateSites(rule string) []*updSite {
 		us.get = ck.getCallIn(w.Fn)
 		key := ck.P.siteKey(w.Call)
 		if w.Fn != ck.A.AddTaint && w.Fn != ck.A.DelTaint {
-			ck.fail("C15.R7", key, ck.P.instrPos(w.Call), funcID(w.Fn), "Node updates are issued only by AddToBeRemovedTaint and DeleteToBeRemovedTaint", funcID(w.Fn), "another function rewrites Node objects")
-			continue
+			// an executor of one of the two writers: the writer fetched, the helper writes
+			if writer, via := ck.executorOf(w.Fn); writer != nil {
+				octx := ck.P.NewCtx(writer)
+				args := make([]*Term, len(via.Common().Args))
+				for i, av := range via.Common().Args {
+					args[i] = octx.Term(av)
+				}
+				ch := octx.child(w.Fn, via, args)
+				ch.depth = 0
+				us.ctx, us.outer, us.outerCtx, us.via = ch, writer, octx, via
+				us.get = ck.getCallIn(writer)
+			} else {
+				ck.fail("C15.R7", key, ck.P.instrPos(w.Call), funcID(w.Fn), "Node updates are issued only by AddToBeRemovedTaint and DeleteToBeRemovedTaint", funcID(w.Fn), "another function rewrites Node objects")
+				continue
+			}
 		}
 		if us.get == nil {
 			ck.fail(rule, key+"/fresh", ck.P.instrPos(w.Call), funcID(w.Fn), "the updated object is fetched with Get in the same call", "no Get", "the cached (possibly stale) node is written back")
 			continue
 		}
-		us.fetched = &Term{Kind: "extract", Name: "0", Args: []*Term{us.ctx.Term(us.get)}}
+		if us.outer != nil {
+			us.fetched = &Term{Kind: "extract", Name: "0", Args: []*Term{us.outerCtx.Term(us.get)}}
+		} else {
+			us.fetched = &Term{Kind: "extract", Name: "0", Args: []*Term{us.ctx.Term(us.get)}}
+		}
 		// R1
 		var obj *Term
 		for _, av := range us.upd.Common().Args {
@@ -65,7 +122,11 @@ func (ck *Check) updateSites(rule string) []*updSite {
 			}
 		}
 		ck.cond(obj != nil && obj.Key() == us.fetched.Key(), rule, key+"/fresh", ck.P.instrPos(w.Call), funcID(w.Fn), "Update is given the object returned by Get in this call", fmt.Sprint(obj), "the cached node (or a rebuilt object) is written, discarding concurrent changes")
-		ck.cond(dominatesInstr(us.get, us.upd), rule, key+"/order", ck.P.instrPos(w.Call), funcID(w.Fn), "Get precedes Update", "", "")
+		if us.outer != nil {
+			ck.cond(dominatesInstr(us.get, us.via), rule, key+"/order", ck.P.instrPos(w.Call), funcID(w.Fn), "Get precedes Update", "", "")
+		} else {
+			ck.cond(dominatesInstr(us.get, us.upd), rule, key+"/order", ck.P.instrPos(w.Call), funcID(w.Fn), "Get precedes Update", "", "")
+		}
 		out = append(out, us)
 	}
 	return out
@@ -103,20 +164,30 @@ func checkC15(ck *Check) {
 	const keyLit = `"atlassian.com/escalator"`
 	for _, us := range sites {
 		fn, ctx := us.fn, us.ctx
-		// R2 store census
-		for _, b := range fn.Blocks {
-			for _, in := range b.Instrs {
-				st, ok := in.(*ssa.Store)
-				if !ok {
-					continue
+		// R2 store census (the executor and the writer that calls it)
+		type frame struct {
+			fn  *ssa.Function
+			ctx *Ctx
+		}
+		frames := []frame{{fn, ctx}}
+		if us.outer != nil {
+			frames = append(frames, frame{us.outer, us.outerCtx})
+		}
+		for _, fr := range frames {
+			for _, b := range fr.fn.Blocks {
+				for _, in := range b.Instrs {
+					st, ok := in.(*ssa.Store)
+					if !ok {
+						continue
+					}
+					path, rooted := rootedAt(fr.ctx, st.Addr, us.fetched)
+					if !rooted {
+						continue
+					}
+					p := strings.Join(path, ".")
+					okv := p == "Spec.Taints" || p == "Spec.Taints.[]"
+					ck.cond(okv, "C15.R2", fmt.Sprintf("%s/store:%s", funcID(fr.fn), p), ck.P.instrPos(st), funcID(fr.fn), "between Get and Update only Spec.Taints of the fetched object is written", p, "another field of the node ("+p+") is modified by the taint write")
 				}
-				path, rooted := rootedAt(ctx, st.Addr, us.fetched)
-				if !rooted {
-					continue
-				}
-				p := strings.Join(path, ".")
-				okv := p == "Spec.Taints" || p == "Spec.Taints.[]"
-				ck.cond(okv, "C15.R2", fmt.Sprintf("%s/store:%s", funcID(fn), p), ck.P.instrPos(st), funcID(fn), "between Get and Update only Spec.Taints of the fetched object is written", p, "another field of the node ("+p+") is modified by the taint write")
 			}
 		}
 		// the search loop over the fetched object's taints
@@ -141,6 +212,11 @@ func checkC15(ck *Check) {
 		}
 		if loop == nil && fn == a.DelTaint {
 			if ck.deleteThroughHelper(us, keyLit) {
+				continue
+			}
+		}
+		if loop == nil && us.outer == a.DelTaint {
+			if ck.deleteThroughExecutor(us, keyLit) {
 				continue
 			}
 		}
@@ -1184,6 +1260,11 @@ func (ck *Check) untaintAgreement(rule string) {
 				ck.ok(rule, key, ck.P.instrPos(call), funcID(fn), "the escalator taint is recognised by Key == "+keyLit+" and nothing else (writer, remover and classifier agree)", "through the search function "+calleeName(call)+" called with the escalator key")
 				continue
 			}
+			// … or an index search: the position of the first taint with the escalator key
+			if call, _ := ck.taintIndexSearch(ctx, fn, keyLit); call != nil {
+				ck.ok(rule, key, ck.P.instrPos(call), funcID(fn), "the escalator taint is recognised by Key == "+keyLit+" and nothing else (writer, remover and classifier agree)", "through the index search "+calleeName(call))
+				continue
+			}
 			ck.fail(rule, key, ck.P.position(fn.Pos()), funcID(fn), "the function searches Spec.Taints for the escalator key", "no such loop", "")
 			continue
 		}
@@ -1531,6 +1612,19 @@ func (ck *Check) writeConfirmed(rule string, fn *ssa.Function) {
 	for _, w := range ck.A.W {
 		if w.Fn == fn && w.Class == "W-K8S-UPD" {
 			upd, _ = w.Call.(*ssa.Call)
+		}
+	}
+	if upd == nil && get != nil {
+		// the Update in an executor helper this writer calls: the helper reports success only if the
+		// Update succeeded, and the writer treats the helper's call as its write
+		for _, w := range ck.A.W {
+			if w.Class != "W-K8S-UPD" {
+				continue
+			}
+			if writer, via := ck.executorOf(w.Fn); writer == fn {
+				ck.executorConfirmed(rule, w.Fn, w.Call.(*ssa.Call))
+				upd = via
+			}
 		}
 	}
 	if get == nil || upd == nil {
@@ -2824,4 +2918,210 @@ func (ck *Check) cacheSynced(rule string) {
 		}
 		ck.cond(okH, rule, funcID(helper)+"/answer", ck.P.position(helper.Pos()), funcID(helper), "the wait helper returns true only as cache.WaitForCacheSync's answer for the functions it was given", "", why)
 	}
+}
+
+// taintIndexSearch: a call in fn of a repo index search (indexSearchSummary) over <node>.Spec.Taints
+// for Key == keyLit; returns the call and the node term.
+func (ck *Check) taintIndexSearch(ctx *Ctx, fn *ssa.Function, keyLit string) (*ssa.Call, *Term) {
+	for _, ci := range callsIn(fn, nil) {
+		call, ok := ci.(*ssa.Call)
+		if !ok {
+			continue
+		}
+		sum := indexSearchSummary(ck.P, call.Common().StaticCallee())
+		if sum == nil || sum.Field != "Key" {
+			continue
+		}
+		args := make([]*Term, len(call.Common().Args))
+		for i, av := range call.Common().Args {
+			args[i] = ctx.Term(av)
+		}
+		list, lit := sum.bound(args)
+		if !(lit.Kind == "const" && lit.Name == keyLit) {
+			continue
+		}
+		if list.Kind == "field" && list.Name == "Taints" && list.Args[0].Kind == "field" && list.Args[0].Name == "Spec" {
+			return call, list.Args[0].Args[0]
+		}
+	}
+	return nil, nil
+}
+
+// executorConfirmed: in the executor x every return whose error can be nil is reached only if the
+// Update x issued succeeded.
+func (ck *Check) executorConfirmed(rule string, x *ssa.Function, upd *ssa.Call) {
+	ctx := ck.P.NewCtx(x)
+	nilT := &Term{Kind: "const", Name: "nil"}
+	ct := ctx.Term(upd)
+	updOK := cmpFormula(token.EQL, &Term{Kind: "extract", Name: "1", Args: []*Term{ct}}, nilT)
+	for _, b := range x.Blocks {
+		for _, at := range ctx.BlockPC(b).Atoms() {
+			if at.Kind == "cmp" && at.Name == "==" && hasConstStr(at, "nil") {
+				for _, y := range at.Args {
+					if isExtractOf(y, 1, func(t *Term) bool { return t.Key() == ct.Key() }) {
+						updOK = Atom(at)
+					}
+				}
+			}
+		}
+	}
+	n := 0
+	for _, b := range x.Blocks {
+		r, ok := b.Instrs[len(b.Instrs)-1].(*ssa.Return)
+		if !ok || len(r.Results) == 0 || !isErrorType(r.Results[len(r.Results)-1].Type()) {
+			continue
+		}
+		ev := r.Results[len(r.Results)-1]
+		pc := ctx.PC(r)
+		if k, isConst := ev.(*ssa.Const); !isConst || !k.IsNil() {
+			if errorConstructor(ev) {
+				continue
+			}
+			pc = And(pc, cmpFormula(token.EQL, ctx.Term(ev), nilT))
+		}
+		if sat, _ := Satisfiable(pc); !sat {
+			continue
+		}
+		n++
+		ck.entails(rule, fmt.Sprintf("%s/success-return#%d/written", funcID(x), n-1), r, pc, updOK, "the executor returns a nil error only if its Update succeeded")
+	}
+	ck.floor(rule, "success returns of "+x.Name(), n, 1)
+}
+
+// deleteThroughExecutor: the untaint is split into an index search S(fetched) and an executor
+// X(fetched, i, …) that removes the element at i and issues the Update. Decided: i is S's answer for
+// the escalator key on the fetched object's taints, X runs only when i ≥ 0, nothing touches the
+// taints between the search and the call, and X removes exactly the element at i (one of the
+// recognised idioms) before its single Update.
+func (ck *Check) deleteThroughExecutor(us *updSite, keyLit string) bool {
+	d, dctx, x, xctx, via := us.outer, us.outerCtx, us.fn, us.ctx, us.via
+	key := ck.P.siteKey(us.upd)
+	// the index parameter: the integer parameter of X used to address Spec.Taints
+	var idxParam *ssa.Parameter
+	for _, b := range x.Blocks {
+		for _, in := range b.Instrs {
+			if st, ok := in.(*ssa.Store); ok {
+				if path, rooted := rootedAt(xctx, st.Addr, us.fetched); rooted && strings.Join(path, ".") == "Spec.Taints.[]" {
+					if ia, ok := st.Addr.(*ssa.IndexAddr); ok {
+						if p, ok := ia.Index.(*ssa.Parameter); ok {
+							idxParam = p
+						}
+					}
+				}
+			}
+			if ap, ok := isBuiltinCall(valueOf(in), "append"); ok && idxParam == nil {
+				if sx, ok := ap.Common().Args[0].(*ssa.Slice); ok && sx.High != nil {
+					if p, ok := sx.High.(*ssa.Parameter); ok {
+						idxParam = p
+					}
+				}
+			}
+		}
+	}
+	if idxParam == nil {
+		return false
+	}
+	pi := -1
+	for i, p := range x.Params {
+		if p == idxParam {
+			pi = i
+		}
+	}
+	if pi < 0 || pi >= len(via.Common().Args) {
+		return false
+	}
+	sCall, ok := via.Common().Args[pi].(*ssa.Call)
+	if !ok {
+		ck.fail("C15.R4", key+"/search", ck.P.instrPos(via), funcID(d), "the index handed to "+x.Name()+" is the answer of an index search over the fetched object's taints", via.Common().Args[pi].String(), "")
+		return true
+	}
+	sum := indexSearchSummary(ck.P, sCall.Common().StaticCallee())
+	okSearch := false
+	if sum != nil && sum.Field == "Key" {
+		args := make([]*Term, len(sCall.Common().Args))
+		for i, av := range sCall.Common().Args {
+			args[i] = dctx.Term(av)
+		}
+		list, lit := sum.bound(args)
+		okSearch = lit.Kind == "const" && lit.Name == keyLit && list.Kind == "field" && list.Name == "Taints" && list.Args[0].Kind == "field" && list.Args[0].Name == "Spec" && list.Args[0].Args[0].Key() == us.fetched.Key()
+	}
+	ck.cond(okSearch, "C15.R4", key+"/search", ck.P.instrPos(sCall), funcID(d), "the removal index is the position of the first taint of the fetched object whose Key is "+keyLit, calleeName(sCall), "the decision is taken on another object, another key, or not by a search")
+	if !okSearch {
+		return true
+	}
+	// X runs only when the search found the taint
+	st := dctx.Term(sCall)
+	found := Not(cmpFormula(token.LSS, st, zeroTerm(types.Typ[types.Int])))
+	ck.entails("C15.R5", key+"/guard", via, dctx.PC(via), found, "the removal and Update happen only when the search found the escalator taint (index ≥ 0)")
+	// nothing rewrites the taints between the search and the executor
+	okStable := dominatesInstr(sCall, via)
+	if lf, ok := sum.List.Obj.(*types.Var); ok && okStable {
+		okStable = dctx.fieldVersion(lf, sCall) == dctx.fieldVersion(lf, via)
+	}
+	ck.cond(okStable, "C15.R5", key+"/index-fresh", ck.P.instrPos(via), funcID(d), "Spec.Taints is not rewritten between the search and the removal at the index it found", "", "the index may point at another taint")
+	// single use: the writer returns after the executor (no loop around it)
+	ck.cond(innermostLoop(d, via.Block()) == nil && innermostLoop(x, us.upd.Block()) == nil, "C15.R5", key+"/returns", ck.P.instrPos(via), funcID(d), "the function returns on every path after its single Update (no further iteration over the mutated slice)", "", "more than one taint can be removed")
+	// the idiom, in X, at the index parameter
+	isIdx := func(v ssa.Value) bool { return v == ssa.Value(idxParam) }
+	ck.removalIdiom("C15.R5", key, x, xctx, us.fetched, us.upd, isIdx, func(*ssa.BasicBlock) bool { return true })
+	return true
+}
+
+// removalIdiom: in fn (blocks accepted by region) exactly one element — the one at an index accepted
+// by isIdx — is removed from fetched.Spec.Taints before commit: swap-with-last + truncate-by-one, or
+// the splice append(s[:i], s[i+1:]...).
+func (ck *Check) removalIdiom(rule, key string, fn *ssa.Function, ctx *Ctx, fetched *Term, commit ssa.Instruction, isIdx func(ssa.Value) bool, region func(*ssa.BasicBlock) bool) {
+	var elemStore, hdrStore *ssa.Store
+	for _, b := range fn.Blocks {
+		if !region(b) {
+			continue
+		}
+		for _, in := range b.Instrs {
+			if s, ok := in.(*ssa.Store); ok {
+				if path, rooted := rootedAt(ctx, s.Addr, fetched); rooted {
+					switch strings.Join(path, ".") {
+					case "Spec.Taints.[]":
+						elemStore = s
+					case "Spec.Taints":
+						hdrStore = s
+					}
+				}
+			}
+		}
+	}
+	okv := false
+	why := "the removal is not a recognised idiom (swap-with-last + truncate-by-one, or append(s[:i], s[i+1:]...))"
+	if hdrStore != nil {
+		hv := ctx.Term(hdrStore.Val)
+		taints := func(t *Term) bool {
+			return t.Kind == "field" && t.Name == "Taints" && t.Args[0].Kind == "field" && t.Args[0].Args[0].Key() == fetched.Key()
+		}
+		lenMinus1 := func(t *Term) bool {
+			return t.Kind == "binop" && t.Name == "-" && t.Args[0].Kind == "len" && taints(t.Args[0].Args[0]) && t.Args[1].Name == "1"
+		}
+		switch {
+		case hv.Kind == "slice" && taints(hv.Args[0]) && hv.Args[1].Name == "0" && lenMinus1(hv.Args[2]) && elemStore != nil:
+			ia, _ := elemStore.Addr.(*ssa.IndexAddr)
+			src := ctx.Term(elemStore.Val)
+			if ia != nil && isIdx(ia.Index) && src.Kind == "index" && taints(src.Args[0]) && lenMinus1(src.Args[1]) && dominatesInstr(elemStore, hdrStore) {
+				okv = true
+			} else {
+				why = "swap-delete: the element at the matched index is not overwritten with the last element before truncating by one"
+			}
+		case hv.Kind == "call" && hv.Name == "append":
+			if ap, ok := hdrStore.Val.(*ssa.Call); ok {
+				x, y := ap.Common().Args[0], ap.Common().Args[1]
+				sx, okx := x.(*ssa.Slice)
+				sy, oky := y.(*ssa.Slice)
+				if okx && oky && isIdx(sx.High) && sy.High == nil {
+					if bo, ok := sy.Low.(*ssa.BinOp); ok && bo.Op == token.ADD && isIdx(bo.X) {
+						if k, ok := bo.Y.(*ssa.Const); ok && k.Int64() == 1 {
+							okv = true
+						}
+					}
+				}
+			}
+		}
+	}
+	ck.cond(okv && hdrStore != nil && dominatesInstr(hdrStore, commit), rule, key+"/idiom", ck.P.instrPos(commit), funcID(fn), "exactly one element — the matched one — is removed from Spec.Taints before the Update", "", why)
 }
